@@ -90,7 +90,7 @@ def arrangements(tick, log, outname, mapname):
     ]
 
 
-PROGRAMS = ['var a = 1;', 'function f(x) { return x + 1; }\nf(2);', 'x = "s" + /r/.test(y) ? [1, 2] : {a: b};']
+PROGRAMS = ['var a = 1;', 'function f(x) { return x + 1; }\nf(2);', 'x = "s" + /r/.test(y) ? [1, 2] : {a: b};', '', '// only a comment\n']
 NAMES = [('/tmp/w/out.js', '/tmp/w/out.js.map'), ('/tmp/w/build/out.js', '/tmp/w/maps/out.js.map'), ('out.js', 'out.js.map'),
          ('/b/out/p.min.js', '/b/out.maps/p.min.js.map'), ('/b/lib-min/p.js', '/b/lib-min-maps/p.js.map'), ('/a/o.js', 'rel/o.map'),
          ('/x/y/z/o.js', '/x/o.map')]
@@ -181,9 +181,9 @@ def bounded(run, mods, tier):
                         if doc.get('mappings') != lower['mappings'] or doc.get('names') != lower['names'] or doc.get('version') != 3:
                             fail(case, 'source map differs from the lower-level API result')
                         mp = outname if same else mapname
-                        if os.path.isabs(mp) and len(doc.get('sources', [])) == 1:
+                        if os.path.isabs(mp) and len(doc.get('sources', [])) == 1 and list(ref_sources) != [sourcemap.INVALID_SOURCE]:
                             got = posixpath.normpath(posixpath.join(posixpath.dirname(mp), doc['sources'][0]))
-                            if got != '/tmp/w/src/in.js':
+                            if got != '/tmp/w/src/in.js':     # (a stream without positioned fragments names no source: 'about:invalid')
                                 fail(case, 'sources entry %r resolves to %r' % (doc['sources'][0], got))
                     if (k > 1 and not reached) or k > 60:
                         break
@@ -215,7 +215,7 @@ def bounded(run, mods, tier):
                     fail(case, 'unexpected %r' % (e,))
                 if not closed_right(log):
                     fail(case, 'streams closed: %r' % [(s.origin, s.closes) for s in log])
-    run.bounded_check('rt.io', '3 programs x 2 printers x %d name pairs x 8 stream arrangements x a fault at every external call '
+    run.bounded_check('rt.io', '%d programs (two of them empty) x 2 printers' % len(PROGRAMS) + ' x %d name pairs x 8 stream arrangements x a fault at every external call '
                       '(stream factory, read, write, writelines); io.read x {valid, invalid, empty} x faults'
                       % (len(NAMES) if tier == 'thorough' else 5), n)
 
